@@ -639,3 +639,41 @@ Proof. vm_compute. repeat split; reflexivity. Qed.
 Example ex_wf_datarow :
   let m := BDataRow [Some [49]; None; Some []; Some [0; 255]] in typed_backend m = true /\ wf_backend m = true.
 Proof. vm_compute. split; reflexivity. Qed.
+
+Example ex_parse_hyp :
+  bytes_ok [90; 0; 0; 0; 5; 73; 1; 2] = true
+  /\ parse_backend [90; 0; 0; 0; 5; 73; 1; 2] = Some (BReadyForQuery Idle, [1; 2]).
+Proof. vm_compute. split; reflexivity. Qed.
+
+(** the hypothesis of [encode_len_wraps_thm] is satisfiable: a 2 GiB command tag (nothing is computed) *)
+Example ex_len_wraps_hyp : exists m, typed_backend m = true /\ two31 <= 4 + body_size m < two64.
+Proof.
+  exists (BCommandComplete (repeat 97 (Z.to_nat two31))). split; [reflexivity|].
+  cbn [body_size]. unfold blen. rewrite repeat_length, Z2Nat.id by lia. lia.
+Qed.
+
+Lemma with_len_panic_iff oc len k : with_len oc len k = Panic <-> (oc = true /\ two64 <= len).
+Proof.
+  unfold with_len. destruct oc; cbn [andb].
+  - destruct (Z.ltb_spec len two64) as [Hlt|Hge]; cbn [negb].
+    + split; [discriminate|intros [_ C]; lia].
+    + split; [intros _; split; [reflexivity|exact Hge]|reflexivity].
+  - split; [discriminate|intros [C _]; discriminate C].
+Qed.
+
+(** the model's [encode] panics only through the checked usize additions of the length computation:
+    never in a wrapping build, and with overflow checks exactly when the frame would reach 2^64 bytes *)
+Theorem encode_panic_iff_thm oc m :
+  typed_backend m = true -> (encode oc m = Panic <-> (oc = true /\ two64 <= 4 + body_size m)).
+Proof.
+  destruct len_formulas as (L1 & L2 & L3 & L4 & L5).
+  destruct m as [| |salt|n v|p k|st|fs|vs|t|fs|fs|]; cbn [encode typed_backend]; intros T;
+    try (cbn [body_size]; split; [discriminate|intros [_ C]; lia]).
+  - cbn [body_size]. apply Nat.eqb_eq in T. unfold blen. rewrite T. split; [discriminate|intros [_ C]; cbn in C; lia].
+  - rewrite with_len_panic_iff, L1. reflexivity.
+  - rewrite with_len_panic_iff, L2. reflexivity.
+  - rewrite with_len_panic_iff, L3. reflexivity.
+  - rewrite with_len_panic_iff, L4. reflexivity.
+  - unfold encode_notice_or_error. rewrite with_len_panic_iff, L5. reflexivity.
+  - unfold encode_notice_or_error. rewrite with_len_panic_iff, L5. reflexivity.
+Qed.
